@@ -167,6 +167,17 @@ def main():
         if rel.endswith("mod.rs"):
             src = fix_mod_rs(rel, src)
         src = rewrite_paths(deasync(src))
+        # hook files that opt in (`// @deasync` marker) are de-asynced for the twin as well, so that a hook
+        # can wrap an `async fn` of its parent and be called synchronously from twin harnesses
+        def hook_path(m):
+            name = m.group(1)
+            hsrc = open("/verif/harness/server/hooks/%s.rs" % name).read()
+            if "// @deasync" not in hsrc:
+                return m.group(0)
+            out = "/verif/.cache/sync_hooks/%s.rs" % name
+            write_if_changed(out, "// GENERATED by /verif/tools/deasync.py from /verif/harness/server/hooks/%s.rs\n" % name + deasync(hsrc))
+            return '#[path = "%s"]' % out
+        src = re.sub(r'#\[path = "/verif/harness/server/hooks/(\w+)\.rs"\]', hook_path, src)
         if rel.startswith("state/"):
             # items of the state module root (trait State, StateEntry re-exports, COMPONENT)
             src = re.sub(r"\bcrate::state::\{", "crate::verif::sync::state::{", src)
